@@ -277,7 +277,7 @@ Proof.
   destruct (N.eqb (s_uid r) 0); [exact H|].
   destruct (negb (N.eqb (if N.eqb target 0 then s_uid r else target) (s_uid r)) && negb (s_root r)); [exact H|].
   destruct (negb (s_root r)); [exact H|].
-  destruct (lookup_user _ (users st)) as [cur|]; [|exact H].
+  destruct (get_user _ (users st)) as [cur|]; [|exact H].
   destruct a as [ns|]; [|exact H].
   destruct (evict_user_inv (if N.eqb target 0 then s_uid r else target) 0 st H) as [st1 [E I1]].
   destruct ns, cur; cbn [ustate_eqb]; try exact H; try rewrite E; destruct sok; first [exact H | exact I1].
